@@ -481,22 +481,18 @@ def prop_uncontrolled(spec, rec):
     rec.case(spec, {"uncontrolled"}, len(active) >= 2 and len(active) < len(ids))
 
 
-def prop_uncontrolled_sim(spec, rec):
-    """The baseline over a whole simulation (one algorithm object, many calls): at every call
-    active sessions get exactly their station's maximum and no other station is scheduled."""
-    h = sc.build_sim(spec)
+def _judge_uncontrolled_run(spec, h, seen):
     ids = [s["id"] for s in spec["stations"]]
     tops = {s["id"]: sc.top_level(s) for s in spec["stations"]}
-    seen = {"calls": 0, "after_departure": False, "satisfied": False}
 
     def post(algo, active, out):
         t = algo.interface.current_time
         act = {s.station_id for s in active}
         for sid in ids:
             if sid in act:
-                require(sid in out and len(out[sid]) == 1 and float(out[sid][0]) == tops[sid], "uncontrolled_not_station_maximum", lambda: "period %d: active station %s scheduled %r, maximum %r" % (t, sid, out.get(sid), tops[sid]))
+                require(sid in out and len(out[sid]) == 1 and float(out[sid][0]) == tops[sid], "uncontrolled_not_station_maximum", lambda: "%speriod %d: active station %s scheduled %r, maximum %r" % (seen.get("tag", ""), t, sid, out.get(sid), tops[sid]))
             else:
-                require(sid not in out or not any(out[sid]), "uncontrolled_schedules_inactive_station", lambda: "period %d: station %s has no active session but is scheduled %r" % (t, sid, out.get(sid)))
+                require(sid not in out or not any(out[sid]), "uncontrolled_schedules_inactive_station", lambda: "%speriod %d: station %s has no active session but is scheduled %r" % (seen.get("tag", ""), t, sid, out.get(sid)))
                 if any(x["station"] == sid and x["departure"] <= t for x in spec["sessions"]):
                     seen["after_departure"] = True
                 if any(x["station"] == sid and x["arrival"] <= t < x["departure"] for x in spec["sessions"]):
@@ -505,7 +501,25 @@ def prop_uncontrolled_sim(spec, rec):
 
     h.scheduler.post = post
     sc.run_sim(h)
+
+
+def prop_uncontrolled_sim(spec, rec):
+    """The baseline over a whole simulation (one algorithm object, many calls): at every call
+    active sessions get exactly their station's maximum and no other station is scheduled.
+    With "second_site" the SAME algorithm object then serves a simulation of another site that
+    uses the same station ids with other equipment (an experiment loop that builds the algorithm
+    once): there, too, every active session must get that site's station maximum."""
+    h = sc.build_sim(spec)
+    seen = {"calls": 0, "after_departure": False, "satisfied": False}
+    _judge_uncontrolled_run(spec, h, seen)
     labels = sc.scenario_labels(spec) | {"uncontrolled_sim"}
+    if spec.get("second_site"):
+        d = sc.decoy_spec(spec)
+        h2 = sc.build_sim(d, scheduler=sc.Wrapped(h.scheduler.inner))
+        seen2 = {"calls": 0, "after_departure": False, "satisfied": False, "tag": "second site served by the same algorithm object: "}
+        _judge_uncontrolled_run(d, h2, seen2)
+        if seen2["calls"]:
+            labels.add("algorithm_object_serves_a_second_site")
     if seen["after_departure"]:
         labels.add("call_after_a_departure")
     if seen["satisfied"]:
@@ -514,12 +528,7 @@ def prop_uncontrolled_sim(spec, rec):
     rec.case(spec, labels, seen["after_departure"] and seen["satisfied"])
 
 
-def prop_sorted_sim(spec, rec):
-    """The allocation oracles applied at EVERY call of a whole simulation (one algorithm object,
-    one network, partially served and nearly finished sessions, estimated departures already in
-    the past): greedy must grant the maximum feasible rate in priority order, round-robin must
-    stop only when blocked."""
-    h = sc.build_sim(spec)
+def _judge_sorted_run(spec, h, rec, labels, stats):
     stations = spec["stations"]
     ids = [s["id"] for s in stations]
     ph = [s["phase"] for s in stations]
@@ -528,8 +537,6 @@ def prop_sorted_sim(spec, rec):
     sch = spec["scheduler"]
     ctx = {"sort": sch["sort"], "stations": stations, "period": spec["period"], "inc": sch.get("inc", 1)}
     sess = {s["id"]: s for s in spec["sessions"]}
-    stats = {"judged": 0, "skipped": 0, "nt": False, "past_estimate": False}
-    labels = sc.scenario_labels(spec) | {"sort_" + sch["sort"]}
 
     def post(algo, active, out):
         t = algo.interface.current_time
@@ -560,11 +567,40 @@ def prop_sorted_sim(spec, rec):
 
     h.scheduler.post = post
     sc.run_sim(h)
+
+
+def prop_sorted_sim(spec, rec):
+    """The allocation oracles applied at EVERY call of a whole simulation (one algorithm object,
+    one network, partially served and nearly finished sessions, estimated departures already in
+    the past): greedy must grant the maximum feasible rate in priority order, round-robin must
+    stop only when blocked.  With "second_site" the same algorithm object afterwards serves
+    another site with the same station ids (other equipment, voltages, limits) and is judged
+    there in the same way."""
+    h = sc.build_sim(spec)
+    sch = spec["scheduler"]
+    stats = {"judged": 0, "skipped": 0, "nt": False, "past_estimate": False}
+    labels = sc.scenario_labels(spec) | {"sort_" + sch["sort"]}
+    _judge_sorted_run(spec, h, rec, labels, stats)
+    if spec.get("second_site"):
+        d = sc.decoy_spec(spec)
+        d["scheduler"] = dict(sch)  # the object keeps its options
+        h2 = sc.build_sim(d, scheduler=sc.Wrapped(h.scheduler.inner))
+        before = stats["judged"]
+        _judge_sorted_run(d, h2, rec, set(), stats)
+        if stats["judged"] > before:
+            labels.add("algorithm_object_serves_a_second_site")
     if stats["past_estimate"]:
         labels.add("estimated_departure_already_past")
     rec.count("invocations_judged", stats["judged"])
     rec.count("invocations_skipped", stats["skipped"])
     rec.case(spec, labels, stats["nt"])
+
+
+@st.composite
+def unc_sim_cases(draw):
+    spec = draw(sc.scenarios(scheduler="uncontrolled", kinds=("cont0", "deadband", "finite"), noise=False))
+    spec["second_site"] = draw(st.booleans())
+    return spec
 
 
 @st.composite
@@ -587,6 +623,7 @@ def sim_cases(draw):
         if draw(st.integers(0, 2)) == 0:
             s["est_departure"] = s["arrival"] + 1
     # distinct arrivals / estimates where possible keep key ties rare; ties are skipped, not judged
+    spec["second_site"] = draw(st.integers(0, 2)) == 0
     return spec
 
 
@@ -604,7 +641,10 @@ def cases(draw, finite_max=True, large=False):
     k = n if big else draw(st.integers(1, n))
     chosen = list(draw(st.permutations(range(n))))[:k]
     arrivals = draw(st.lists(st.integers(-30, 0), min_size=k, max_size=k, unique=True))
-    ests = draw(st.lists(st.integers(-12, 40), min_size=k, max_size=k, unique=True))
+    # in a third of the cases (nearly) everybody has outstayed the estimate: laxities and deadlines
+    # are negative numbers then, and still order the queue
+    lo, hi = draw(st.sampled_from([(-12, 40), (-12, 40), (-25, 3)]))
+    ests = draw(st.lists(st.integers(lo, hi), min_size=k, max_size=k, unique=True))
     sessions = []
     for j, i in enumerate(chosen):
         s = stations[i]
@@ -641,7 +681,7 @@ def subchecks(tier):
         Given("round_robin", cases(large=True), prop_rr, quick=800, thorough=100000, floors={"stopped_by_infeasibility": 0.15, "sixteen_or_more_sessions_queued": 0.04}),
         Given("sorted_sim", sim_cases(), prop_sorted_sim, quick=250, thorough=20000, floors={"estimated_departure_already_past": 0.1}),
         Given("uncontrolled", cases(), prop_uncontrolled, quick=300, thorough=20000),
-        Given("uncontrolled_sim", sc.scenarios(scheduler="uncontrolled", kinds=("cont0", "deadband", "finite"), noise=False), prop_uncontrolled_sim, quick=150, thorough=10000, floors={"call_after_a_departure": 0.3, "call_with_satisfied_session_connected": 0.1}),
+        Given("uncontrolled_sim", unc_sim_cases(), prop_uncontrolled_sim, quick=150, thorough=10000, floors={"call_after_a_departure": 0.3, "call_with_satisfied_session_connected": 0.1}),
     ]
 
 
